@@ -463,6 +463,15 @@ FAMILIES = {
 }
 
 
+# families whose members walk through declared variants: a batch takes one member per variant (capped), so that every
+# special path of the rule's check() is in every batch; other families vary only in parameters and get 3 members
+N_VARIANTS = {"pad_conv": 12, "reshape_reshape": 8, "fold_chain": 9, "slice_split": 7}
+
+
+def members_per_batch(family: str, default: int, cap: int = 9) -> int:
+    return min(cap, N_VARIANTS[family]) if family in N_VARIANTS else default
+
+
 def gen_model(rng: Rng, family: str | None = None, member: int | None = None, offset: int = 0) -> tuple[str, str]:
     global _MEMBER
     fam = family or rng.choice(sorted(FAMILIES))
